@@ -300,6 +300,7 @@ fn run_case(config: &str, ops: &str, conns: &str) -> String {
 
 fn main() {
     silence_panics();
+    start_watchdog(20); // a case that takes longer in REAL time (the clock is virtual: cases take milliseconds) spins without yielding
     install_logger(); // every log line of the library is evaluated and formatted, as under RUST_LOG=trace
     run_cases(|f, emit| match f[0] {
         // client <config> <ops> <connection scripts>
